@@ -1,5 +1,6 @@
 """Generate the verification conditions of one function against one contract."""
 import ast
+import json
 import re
 import z3
 from . import fl, extract
@@ -254,6 +255,87 @@ def verify_alias(db, cc, target=None):
     rec["alias"] = {"statements_visited": an.visited, "functions_inlined": sorted(an.inlined),
                     "unmodelled_calls": sorted(set(an.unmodelled))[:40], "assumed": sorted(an.assumed),
                     "effects": len(an.effects), "writes_inside_assigns": sorted(set(e.buf for e in an.effects if not alias.is_fresh(e.buf) and alias.allowed(e.buf, assigns)))}
+    return obs, rec
+
+
+def scan_state_writes(pkg):
+    """every statement INSIDE a function body of the package that writes state outliving the call: `global` statements, stores
+    to / in-place methods on class objects (a class name, cls, type(self), self.__class__) and module-level names, mutable
+    default arguments"""
+    import glob
+    import os
+    out = []
+    root = os.path.join(extract.REPO, *pkg.split("."))
+    for f in sorted(glob.glob(os.path.join(root, "**", "*.py"), recursive=True)):
+        rel = os.path.relpath(f, extract.REPO)
+        tree = ast.parse(open(f, encoding="utf-8").read())
+        modnames = set()
+        for n in tree.body:
+            if isinstance(n, (ast.Assign, ast.AnnAssign)):
+                for tg in (n.targets if isinstance(n, ast.Assign) else [n.target]):
+                    if isinstance(tg, ast.Name):
+                        modnames.add(tg.id)
+        classnames = {n.name for n in ast.walk(tree) if isinstance(n, ast.ClassDef)}
+
+        def root_of(e):
+            while isinstance(e, (ast.Attribute, ast.Subscript)):
+                e = e.value
+            if isinstance(e, ast.Call) and ast.unparse(e.func) == "type":
+                return "type()"
+            return e.id if isinstance(e, ast.Name) else None
+
+        def shared(e):
+            r = root_of(e)
+            txt = ast.unparse(e)
+            return (r in classnames or r in modnames or r == "cls" or r == "type()" or ".__class__" in txt)
+        for fn in ast.walk(tree):
+            if not isinstance(fn, (ast.FunctionDef, ast.AsyncFunctionDef)):
+                continue
+            local = {a.arg for a in fn.args.args + fn.args.kwonlyargs}
+            for n in ast.walk(fn):
+                if isinstance(n, (ast.Assign, ast.AnnAssign)):
+                    for tg in (n.targets if isinstance(n, ast.Assign) else [n.target]):
+                        if isinstance(tg, ast.Name):
+                            local.add(tg.id)
+            for d in fn.args.defaults + [x for x in fn.args.kw_defaults if x is not None]:
+                if isinstance(d, (ast.List, ast.Dict, ast.Set)) or (isinstance(d, ast.Call) and ast.unparse(d.func) in ("list", "dict", "set")):
+                    out.append({"file": rel, "function": fn.name, "line": fn.lineno, "kind": "mutable-default", "text": ast.unparse(d)[:60]})
+            for n in ast.walk(fn):
+                if isinstance(n, (ast.Global, ast.Nonlocal)) and isinstance(n, ast.Global):
+                    out.append({"file": rel, "function": fn.name, "line": n.lineno, "kind": "global", "text": ", ".join(n.names)})
+                elif isinstance(n, (ast.Assign, ast.AugAssign, ast.AnnAssign, ast.Delete)):
+                    tgs = n.targets if isinstance(n, (ast.Assign, ast.Delete)) else [n.target]
+                    for tg in tgs:
+                        if isinstance(tg, (ast.Attribute, ast.Subscript)) and shared(tg) and root_of(tg) not in local:
+                            out.append({"file": rel, "function": fn.name, "line": n.lineno, "kind": "store", "text": ast.unparse(tg)[:80]})
+                elif isinstance(n, ast.Call) and isinstance(n.func, ast.Attribute) and n.func.attr in (
+                        "append", "update", "extend", "pop", "clear", "setdefault", "add", "remove", "insert", "popitem", "discard", "sort", "reverse"):
+                    if shared(n.func.value) and root_of(n.func.value) not in local:
+                        out.append({"file": rel, "function": fn.name, "line": n.lineno, "kind": "inplace-call", "text": ast.unparse(n)[:80]})
+    return out
+
+
+def verify_scan(db, cc):
+    """repository-wide finite data obligations: the clauses are evaluated over the list of state-writing statements found in
+    the function bodies of the package (a loop-free evaluation over the complete source is a proof of the SYNTACTIC claim)"""
+    import hashlib
+    writes = scan_state_writes(cc.target)
+    env = dict(db.constants)
+    env["writes"] = writes
+    obs = []
+    for cl in cc.ensures:
+        try:
+            val = bool(eval(compile(ast.fix_missing_locations(ast.Expression(cl.expr)), cc.file, "eval"), dict(env, __builtins__=__builtins__)))
+            extra = ""
+        except Exception as e:
+            val, extra = False, " [evaluation error: %r]" % (e,)
+        if not val:
+            extra += "  --  " + "; ".join("%(file)s:%(line)d %(function)s %(kind)s %(text)s" % w for w in writes)[:1500]
+        obs.append(Obligation("%s#table#scan.%s" % (cc.target, cl.name), "post", [], z3.BoolVal(val), cc.target, cl.lineno,
+                              cl.text() + extra, []))
+    h = hashlib.sha256(json.dumps(writes, sort_keys=True).encode()).hexdigest()
+    rec = {"qualname": cc.target + " (package scan)", "file": cc.target.replace(".", "/") + "/**/*.py", "line": 0, "sha256": h, "numba": False,
+           "dropped": ["everything but the state-writing statements of function bodies"], "no_fuzz": True, "state_writes_found": len(writes)}
     return obs, rec
 
 
